@@ -1,4 +1,5 @@
 import CpModel.Bus
+import CpModel.Gen.C18Tables
 import CpProofs.C18
 /-!
   C18, second generation (`publishX` …): re-entrant listeners at full strength.
@@ -928,5 +929,347 @@ theorem lifecycle_trace_nocalls (fuel : Nat) (w : XW) (hn : NoCalls w.bus) (m : 
         simp only [List.mem_cons, List.not_mem_nil, or_false] at hq
         simp only [exitTails, List.mem_cons, List.not_mem_nil, or_false] at hx
         rcases hq with rfl | rfl <;> rcases hx with rfl | rfl | rfl | rfl <;> simp [pathEnd]
+
+/-! ### log listeners that never raise (`Quiet`), invariantly -/
+
+/-- log listeners are simple and return, and no script subscribes a log listener that does not -/
+def qInv : ScriptInv where
+  LP := fun c l => (c = .log → l.acts = [] ∧ l.out = .ok) ∧
+    ∀ id prio out, Act.sub .log id prio out ∈ l.acts → out = .ok
+  prio := fun _ _ _ h => h
+  closed := fun _ l h ch id prio out hm =>
+    ⟨fun hc => by subst hc; exact ⟨rfl, h.2 id prio out hm⟩, by intro _ _ _ hx; simp at hx⟩
+
+def Quiet (b : Bus) : Prop := BusInv qInv b
+
+/-- decidable form, for concrete buses -/
+def quietB (b : Bus) : Bool :=
+  b.chans.all fun cl => cl.2.all fun l =>
+    (cl.1 != .log || (l.acts.isEmpty && l.out == .ok)) &&
+    l.acts.all fun a => match a with | .sub .log _ _ out => out == .ok | _ => true
+
+theorem quiet_of_bool {b : Bus} (h : quietB b = true) : Quiet b := by
+  intro c ls hl l hm
+  simp only [quietB, List.all_eq_true, Bool.and_eq_true, Bool.or_eq_true] at h
+  obtain ⟨h1, h2⟩ := h (c, ls) (lookup_mem hl) l hm
+  refine ⟨fun hc => ?_, fun id prio out ha => ?_⟩
+  · subst hc
+    rcases h1 with h1 | h1
+    · simp at h1
+    · simp only [List.isEmpty_iff, beq_iff_eq] at h1; exact h1
+  · have := h2 _ ha
+    simpa using this
+
+theorem pubLoopX_quiet (re : Re) (ch : Chan) (items : List Listener)
+    (h : ∀ l ∈ items, l.acts = [] ∧ l.out = .ok) (w : XW) (fails : List Nat) :
+    pubLoopX re ch items w fails =
+      ({ w with j := w.j ++ items.map fun l => ⟨ch, l.id, w.bus.state, l.prio, w.depth⟩ },
+       if fails.isEmpty then none else some (.chanFail fails)) := by
+  induction items generalizing w with
+  | nil => simp [pubLoopX]
+  | cons l rest ih =>
+    have hl := h l (by simp)
+    have hr : ∀ x ∈ rest, x.acts = [] ∧ x.out = .ok := fun x hx => h x (by simp [hx])
+    simp only [pubLoopX, hl.1, hl.2, runActsX, ended]
+    rw [ih hr]
+    simp
+
+/-- with `Quiet`, `self.log(...)` returns and touches nothing but the journal -/
+theorem log_harmless (re : Re) (w : XW) (hq : Quiet w.bus) :
+    ∃ es, publishWith re w .log = ({ w with j := w.j ++ es }, none) := by
+  cases hl : lookup w.bus.chans .log with
+  | none => exact ⟨[], by rw [publishWith_none re w .log hl]; simp⟩
+  | some ls =>
+    have hqs : ∀ l ∈ sortByPrio ls, l.acts = [] ∧ l.out = .ok :=
+      fun l hm => (hq .log ls hl l ((CpProofs.C18.sortByPrio_perm ls).mem_iff.mp hm)).1 rfl
+    refine ⟨(sortByPrio ls).map fun l => ⟨.log, l.id, w.bus.state, l.prio, w.depth + 1⟩, ?_⟩
+    unfold publishWith
+    rw [hl]
+    simp only [pubLoopX_quiet re .log _ hqs]
+    rfl
+
+theorem reAt_logOK (n : Nat) (w : XW) (hq : Quiet w.bus) :
+    ((reAt n).pub w .log).2 = none ∨ ((reAt n).pub w .log).2 = some .outOfFuel := by
+  cases n with
+  | zero => exact Or.inr rfl
+  | succ n =>
+    obtain ⟨es, h⟩ := log_harmless (reAt n) w hq
+    exact Or.inl (by simp only [reAt]; rw [h])
+
+/-- **C18 (re-entrant listeners) — every listener subscribed when the publish began runs exactly
+    once, in priority order, even when listeners re-enter.**  For ARBITRARY scripts (re-entrant
+    subscribe / unsubscribe / publish / lifecycle calls, raising listeners) on a bus whose log
+    listeners never raise (`Quiet`, an invariant of all operations): a publish to a channel other
+    than `log` that returns or raises `ChannelFailures` has itself invoked exactly the
+    priority-sorted snapshot taken at entry (`sortByPrio_perm/_sorted/_stable` say what that is),
+    each listener once; `Quiet` still holds afterwards. -/
+theorem publishX_all_run_reentrant (fuel : Nat) (w : XW) (ch : Chan) (ls : List Listener)
+    (hch : ch ≠ .log) (hq : Quiet w.bus) (hl : lookup w.bus.chans ch = some ls) :
+    ∃ es, (publishX fuel w ch).1.j = w.j ++ es ∧ (∀ e ∈ es, w.depth + 1 ≤ e.depth) ∧
+      Quiet (publishX fuel w ch).1.bus ∧
+      (((publishX fuel w ch).2 = none ∨ ∃ ids, (publishX fuel w ch).2 = some (.chanFail ids)) →
+        (directAt (w.depth + 1) es).map esig = (sortByPrio ls).map (lsig ch)) := by
+  have hre := reAt_pres qInv fuel
+  obtain ⟨es, inv, rest, _, h2, h3, h4, h5, h6, h7⟩ :=
+    publishWith_spec (reAt fuel) (fun w => Quiet w.bus)
+      ⟨reAt_frame fuel, fun w h => hre.1 w .log h, fun _ _ _ h => h⟩ True
+      (fun _ w h => reAt_logOK fuel w h) w ch ls hl
+      (fun l hm w' hw' => runActsX_pres qInv _ hre l.acts (qInv.closed ch l (hq ch ls hl l hm)) w' hw')
+  refine ⟨es, h2, h3, (h7 hq).1, fun hr => ?_⟩
+  have hrest : rest = [] := by
+    rcases hr with h | ⟨ids, h⟩
+    · exact h6 h
+    · exact (h7 hq).2 trivial hch ids h
+  rw [h5, h4, hrest, List.append_nil]
+
+theorem startFailW_ne_none (pub : XPub) (w : XW) (e : XExc) : (startFailW pub w e).2 ≠ none := by
+  unfold startFailW
+  split
+  · simp
+  · generalize pub w .log = r
+    obtain ⟨w4, o⟩ := r
+    cases o with
+    | some e' => simp [xbind]
+    | none =>
+      simp only [xbind]
+      generalize exitW pub w4 = rx
+      obtain ⟨w5, ox⟩ := rx
+      cases ox with
+      | none => simp
+      | some e' => dsimp only; split <;> simp
+
+/-- **C18 (re-entrant listeners incl. lifecycle calls)** — on a `Quiet` bus, whatever the
+    listeners re-enter (including `start()/stop()/exit()` from inside listeners): a `start()`
+    that returns leaves the bus STARTED and a `stop()` that returns leaves it STOPPED.
+    (The analogous claim for `exit()` is false: `exit_returns_not_EXITING`.) -/
+theorem final_state_reentrant_calls (fuel : Nat) (w : XW) (hq : Quiet w.bus) :
+    ((callX fuel w .start).2 = none → (callX fuel w .start).1.bus.state = .started) ∧
+    ((callX fuel w .stop).2 = none → (callX fuel w .stop).1.bus.state = .stopped) := by
+  have hp := publishX_pres qInv fuel
+  constructor
+  · simp only [callX, callWith, startW]
+    have h1 := hp (setSt { w with atexit := w.atexit + 1 } .starting) .log hq
+    generalize publishX fuel (setSt { w with atexit := w.atexit + 1 } .starting) .log = r1 at h1
+    obtain ⟨w1, o1⟩ := r1
+    cases o1 with
+    | some e => simp [xbind]
+    | none =>
+      simp only [xbind]
+      have h2 := hp w1 .start h1
+      generalize publishX fuel w1 .start = r2 at h2
+      obtain ⟨w2, o2⟩ := r2
+      cases o2 with
+      | some e => dsimp only; intro h; exact absurd h (startFailW_ne_none _ _ _)
+      | none =>
+        dsimp only
+        obtain ⟨es, h3⟩ := log_harmless (reAt fuel) (setSt w2 .started) h2
+        unfold publishX
+        rw [h3]
+        intro _; rfl
+  · simp only [callX, callWith, stopW]
+    have h1 := hp (setSt w .stopping) .log hq
+    generalize publishX fuel (setSt w .stopping) .log = r1 at h1
+    obtain ⟨w1, o1⟩ := r1
+    cases o1 with
+    | some e => simp [xbind]
+    | none =>
+      simp only [xbind]
+      have h2 := hp w1 .stop h1
+      generalize publishX fuel w1 .stop = r2 at h2
+      obtain ⟨w2, o2⟩ := r2
+      cases o2 with
+      | some e => simp
+      | none =>
+        dsimp only
+        obtain ⟨es, h3⟩ := log_harmless (reAt fuel) (setSt w2 .stopped) h2
+        unfold publishX
+        rw [h3]
+        intro _; rfl
+
+/-! ### witnesses: what re-entrant listeners observe (all replayed on the real Bus, corpus/C18) -/
+
+def c1 : Chan := .custom 1
+
+/-- listener 1 (priority 10) unsubscribes listener 2 (priority 50) of the same channel -/
+def wUnsub : XW :=
+  { bus := subscribe (subscribe Bus.init c1 ⟨1, 10, [.unsub c1 2], .ok⟩) c1 ⟨2, 50, [], .ok⟩ }
+
+/-- a listener unsubscribed during a publish still runs in that publish (it is in the snapshot),
+    and not in the next one -/
+theorem unsubscribed_during_publish_still_runs :
+    (publishX 4 wUnsub c1).1.j.map (·.id) = [1, 2] ∧
+    (publishX 4 (publishX 4 wUnsub c1).1 c1).1.j.map (·.id) = [1, 2, 1] := by decide
+
+/-- listener 1 (priority 10) subscribes listener 3 with priority 5 -/
+def wSub : XW :=
+  { bus := subscribe (subscribe Bus.init c1 ⟨1, 10, [.sub c1 3 5 .ok], .ok⟩) c1 ⟨2, 50, [], .ok⟩ }
+
+/-- a listener subscribed during a publish does not run in that publish; in the next one it runs
+    at its priority -/
+theorem subscribed_during_publish_waits :
+    (publishX 4 wSub c1).1.j.map (·.id) = [1, 2] ∧
+    (publishX 4 (publishX 4 wSub c1).1 c1).1.j.map (·.id) = [1, 2, 3, 1, 2] := by decide
+
+/-- listener 1 (priority 10) re-subscribes listener 2 (priority 50) with priority 1 -/
+def wReprio : XW :=
+  { bus := subscribe (subscribe Bus.init c1 ⟨1, 10, [.sub c1 2 1 .ok], .ok⟩) c1 ⟨2, 50, [], .ok⟩ }
+
+/-- a priority changed during a publish takes effect from the next publish on -/
+theorem reprioritised_during_publish_keeps_order :
+    (publishX 4 wReprio c1).1.j.map (fun e => (e.id, e.prio)) = [(1, 10), (2, 50)] ∧
+    (publishX 4 (publishX 4 wReprio c1).1 c1).1.j.map (fun e => (e.id, e.prio)) =
+      [(1, 10), (2, 50), (2, 1), (1, 10)] := by decide
+
+/-- start listener 1 (priority 10) calls `stop()`; start listener 2 (priority 50) is plain -/
+def wStartStop : XW :=
+  { bus := subscribe (subscribe Bus.init .start ⟨1, 10, [.call .stop], .ok⟩) .start ⟨2, 50, [], .ok⟩ }
+
+/-- "start listeners observe STARTING" does not extend to listeners that call lifecycle methods
+    themselves: after listener 1 called `stop()`, listener 2 observes STOPPED (and `start()` still
+    ends STARTED, as `final_state_reentrant_calls` says). -/
+theorem start_listeners_see_STARTING_reentrant_false :
+    ¬ (∀ (fuel : Nat) (w : XW), Quiet w.bus →
+        ∀ e ∈ (callX fuel w .start).1.j, e.ch = .start → e.st = .starting) := by
+  intro h
+  have := h 4 wStartStop (quiet_of_bool (by decide))
+  revert this
+  decide
+
+/-- exit listener 1 unsubscribes itself and calls `start()` -/
+def wExitStart : XW :=
+  { bus := subscribe Bus.init .exit ⟨1, 50, [.unsub .exit 1, .call .start], .ok⟩ }
+
+/-- "`exit()` that returns leaves the bus EXITING" does not extend to listeners that call lifecycle
+    methods themselves: an exit listener calling `start()` makes `exit()` return with the bus
+    STARTED. -/
+theorem exit_returns_not_EXITING :
+    ¬ (∀ (fuel : Nat) (w : XW), Quiet w.bus →
+        (callX fuel w .exit).2 = none → (callX fuel w .exit).1.bus.state = .exiting) := by
+  intro h
+  have := h 6 wExitStart (quiet_of_bool (by decide))
+  revert this
+  decide
+
+/-- a `main` listener calling `exit()` from inside a publish: the well-known way out of `block()` -/
+def wMainExit : XW :=
+  { bus := subscribe (subscribe (subscribe Bus.init .main ⟨1, 50, [.call .exit], .ok⟩)
+      .stop ⟨2, 50, [.pub c1], .raise⟩) c1 ⟨3, 50, [.unsub c1 3], .ok⟩ }
+
+/-! non-vacuity: the hypotheses hold on buses with genuinely re-entrant listeners -/
+example : Quiet wMainExit.bus := quiet_of_bool (by decide)
+example : Quiet wUnsub.bus ∧ NoCalls wUnsub.bus := ⟨quiet_of_bool (by decide), noCalls_of_bool (by decide)⟩
+example : NoCalls wSub.bus ∧ NoCalls wReprio.bus := ⟨noCalls_of_bool (by decide), noCalls_of_bool (by decide)⟩
+example : lookup wUnsub.bus.chans c1 = some [⟨1, 10, [.unsub c1 2], .ok⟩, ⟨2, 50, [], .ok⟩] := by decide
+/-- nesting really happens: publish(main) → exit() → publish(stop) → publish(c1), depths 1, 2, 3;
+    the failing stop listener makes `exit()` end the process with code 70 -/
+example : (publishX 6 wMainExit .main).1.j.map (fun e => (e.id, e.depth)) = [(1, 1), (2, 2), (3, 3)] ∧
+    (publishX 6 wMainExit .main).2 = some (.procExit 70) := by decide
+
+/-! ### small state logic: priorities, atexit, wait -/
+
+/-- the priority argument wins — also `0` — over the callable's `priority` attribute, which wins
+    over the default -/
+theorem effPrio_spec (a b : Nat) (x : Option Nat) :
+    effPrio (some a) x = a ∧ effPrio none (some b) = b ∧ effPrio none none = defaultPriority := by
+  simp [effPrio]
+
+/-- `_clean_exit` does nothing once the bus is EXITING; otherwise it warns and calls `exit()` -/
+theorem cleanExit_spec (pub : XPub) (w : XW) :
+    (w.bus.state = .exiting → cleanExitW pub w = (w, none)) ∧
+    (w.bus.state ≠ .exiting → cleanExitW pub w = exitW pub { w with warns := w.warns + 1 }) := by
+  unfold cleanExitW
+  constructor <;> intro h <;> simp [h]
+
+/-- `wait` returns only when the bus is in one of the awaited states -/
+theorem waitW_returns_in_target (pub : XPub) (ts : List St) (ch : Option Chan) (n : Nat)
+    (plan : List Sleep) (w : XW) :
+    (waitW pub ts ch n plan w).2 = none → ts.contains (waitW pub ts ch n plan w).1.bus.state = true := by
+  induction n generalizing plan w with
+  | zero =>
+    simp only [waitW]
+    split
+    · intro _; assumption
+    · simp
+  | succ n ih =>
+    simp only [waitW]
+    split
+    · intro _; assumption
+    · split
+      · simp
+      · simp
+      · simp
+      · cases ch with
+        | none => simp only [xbind]; exact ih _ _
+        | some c =>
+          dsimp only
+          generalize pub w c = r
+          obtain ⟨w', o⟩ := r
+          cases o with
+          | some e => simp [xbind]
+          | none => simp only [xbind]; exact ih _ _
+
+/-- `ChannelFailures.__bool__`: truthy iff at least one exception was recorded — the publish loop
+    raises iff the list of failures is non-empty -/
+theorem pubLoopX_result_nil (re : Re) (ch : Chan) (w : XW) (fails : List Nat) :
+    (pubLoopX re ch [] w fails).2 = none ↔ fails = [] := by
+  simp only [pubLoopX]
+  cases fails <;> simp
+
+/-! ### tables regenerated from the live module -/
+
+def stOfCode : Nat → Option St
+  | 0 => some .stopped | 1 => some .starting | 2 => some .started | 3 => some .stopping
+  | 4 => some .exiting | _ => none
+
+def stCode : St → Nat
+  | .stopped => 0 | .starting => 1 | .started => 2 | .stopping => 3 | .exiting => 4
+
+def methOfCode : Nat → Option Meth
+  | 0 => some .start | 1 => some .stop | 2 => some .exit | 3 => some .restart | 4 => some .graceful
+  | _ => none
+
+def resCode : XO → Nat
+  | none => 0
+  | some (.procExit c) => 1000 + c
+  | _ => 2000
+
+def dedupSt : List St → List St
+  | a :: b :: rest => if a = b then dedupSt (b :: rest) else a :: dedupSt (b :: rest)
+  | l => l
+
+/-- a row of the live transition table agrees with the model -/
+def rowOK (row : Nat × Nat × List Nat × Nat × Bool) : Bool :=
+  match stOfCode row.1, methOfCode row.2.1 with
+  | some s, some m =>
+    let r := callX 2 { bus := { Bus.init with state := s } } m
+    (dedupSt r.1.tr).map stCode == row.2.2.1 && resCode r.2 == row.2.2.2.1 &&
+      r.1.bus.execv == row.2.2.2.2
+  | _, _ => false
+
+/-- the live module defines exactly the five states of the model, in this order -/
+theorem gen_states : CpModel.Gen.C18.stateCodes = [0, 1, 2, 3, 4] := by decide
+
+/-- a fresh `Bus()` has exactly the six built-in channels of `Bus.init` -/
+theorem gen_builtin_channels :
+    CpModel.Gen.C18.builtinChannelCodes = [0, 1, 2, 3, 4, 5] ∧
+    Bus.init.chans.map (·.1) = [.start, .stop, .exit, .graceful, .log, .main] := by decide
+
+theorem gen_default_priority : CpModel.Gen.C18.defaultPriority = defaultPriority := by decide
+
+/-- `os._exit` is only ever called with EX_SOFTWARE = 70 -/
+theorem gen_exit_code : CpModel.Gen.C18.exitCodes = [70] := by decide
+
+/-- **every transition of the listener-free bus** — each of the five states × each of the five
+    lifecycle methods (so also repeated `exit()`, `start()` when started, `exit()` while
+    STARTING = `os._exit(70)`) — as measured on the live module, is what the model computes:
+    states assigned, result, `execv` flag. -/
+theorem gen_transitions_match :
+    CpModel.Gen.C18.transitions.length = 25 ∧
+    ∀ row ∈ CpModel.Gen.C18.transitions, rowOK row = true := by decide
+
+/-- argument / attribute / default priority as measured on the live module = `effPrio` -/
+theorem gen_priority_rows :
+    CpModel.Gen.C18.prioRows.length = 9 ∧
+    ∀ row ∈ CpModel.Gen.C18.prioRows, effPrio row.1 row.2.1 = row.2.2 := by decide
 
 end CpProofs.C18X
